@@ -246,3 +246,42 @@ def run_cargo_kani(crate_dir, target_dir, harness, logfile, timeout_s, mem_gb, e
             except Exception:
                 pass
     return rc, time.time() - t0
+
+
+def find_goto_binary(target_dir, leaf):
+    """Kani leaves one GOTO binary per harness: <crate>-<hash>__<mangled path ending in <len><leaf>>.out"""
+    suffix = "%d%s.out" % (len(leaf), leaf)
+    best = None
+    for root, _, files in os.walk(target_dir):
+        for fn in files:
+            if fn.endswith(suffix) and not fn.endswith(".symtab.out"):
+                p = os.path.join(root, fn)
+                if best is None or os.path.getmtime(p) > os.path.getmtime(best):
+                    best = p
+    return best
+
+
+_LOOP_RE = re.compile(r"^Loop (\S+):\s*$")
+
+
+def resolve_unwindset(goto_binary, spec):
+    """spec: list of (function substring, ordinal or None, bound). Loop identifiers are resolved on every
+    run from `cbmc --show-loops` (they carry mangled names and are not stable across edits)."""
+    out = subprocess.run(["cbmc", "--show-loops", goto_binary], capture_output=True, text=True).stdout.splitlines()
+    loops = []
+    for i, ln in enumerate(out):
+        m = _LOOP_RE.match(ln)
+        if m and i + 1 < len(out):
+            fm = re.search(r" function (.*)$", out[i + 1])
+            loops.append((m.group(1), fm.group(1) if fm else ""))
+    chosen = {}
+    unmatched = []
+    for fsub, ordinal, bound in spec:
+        hit = False
+        for lid, fn in loops:
+            if fsub in fn and (ordinal is None or lid.endswith(".%d" % ordinal)):
+                chosen[lid] = max(bound, chosen.get(lid, 0))
+                hit = True
+        if not hit:
+            unmatched.append((fsub, ordinal))
+    return chosen, unmatched, len(loops)
